@@ -19,6 +19,12 @@ def pystr(v):
 
 def mkstr(p): return StrV(p) if not p.startswith('"') else StrV('\x00' + p)
 
+class SymDisplay(StrV):
+    """the text `format!("{}", v)` of a symbolic integer v"""
+    def __init__(self, val):
+        StrV.__init__(self, '<display>'); self.val = val
+
+
 class PyStr(StrV):
     """already-unquoted string"""
     pass
@@ -306,8 +312,28 @@ def bi_str_split_at(eng, st, args, d, r, callee=''):
     s = sval(args[0]).encode(); k = args[1].v
     return ('value', Agg('tuple', (PyStr(s[:k].decode()), PyStr(s[k:].decode()))))
 
+def bi_int_to_string(eng, st, args, d, r, callee=''):
+    v = args[0]
+    while isinstance(v, Ref): v = eng.deref(st, v)
+    if isinstance(v, Agg) and v.ty == 'NonZero': v = v.f[0]
+    if isinstance(v, S) and v.conc(): return ('value', Agg('String', (PyStr(str(v.v)),)))
+    if isinstance(v, S): return ('value', Agg('String', (SymDisplay(v),)))
+    raise Unsupported('to_string of %r' % (v,))
+
+def bi_formatter_pad(eng, st, args, d, r, callee=''):
+    """Formatter::pad(s): honours the width / precision of the formatter (unlike write!(f, "{}", x), which formats x with a fresh spec)"""
+    fm = eng.deref(st, args[0])
+    s = _as_str_value(eng, st, args[1])
+    hw = fm.f[1] if len(fm.f) > 1 else S(False, 'bool')
+    hp = fm.f[2] if len(fm.f) > 2 else S(False, 'bool')
+    st.out = getattr(st, 'out', ()) + (('pad', s, hw, hp),)
+    return ('value', ok_unit())
+
 def install():
     B = E.BUILTIN_METHODS
+    B[('Formatter', 'pad')] = bi_formatter_pad
+    for h_ in ('usize', 'NonZero', 'u64', 'u32', 'i16'): B[(h_, 'to_string')] = bi_int_to_string
+    B[('ToString', 'to_string')] = bi_int_to_string
     B[('str', 'trim_end_matches')] = bi_str_trim_matches('end'); B[('str', 'trim_start_matches')] = bi_str_trim_matches('start'); B[('str', 'trim_matches')] = bi_str_trim_matches('both')
     B[('str', 'strip_prefix')] = bi_str_strip('prefix'); B[('str', 'strip_suffix')] = bi_str_strip('suffix'); B[('str', 'rfind')] = bi_str_rfind
     B[('str', 'split_at')] = bi_str_split_at
